@@ -7,6 +7,12 @@ From Mesa Require Import Common.ListX Generated.Tables Model.PropLayer.
 Import ListNotations.
 Open Scope Z_scope.
 
+Ltac case_all :=
+  repeat match goal with
+         | |- context [match ?x with _ => _ end] => destruct x eqn:?; simpl
+         | |- context [if ?x then _ else _] => destruct x eqn:?; simpl
+         end.
+
 (* ---------- coordinates ---------- *)
 Lemma coord_eqb_eq a b : coord_eqb a b = true <-> a = b.
 Proof.
@@ -456,11 +462,14 @@ Proof.
   - (* MoveRel *)
     destruct (s_discrete st) eqn:Ed; [|exact I].
     destruct (agent_cell (s_agents st) a) as [c0|]; [|exact I].
-    destruct (Nat.eqb (length dir) (length c0) && dir_ok moore dir && valid_coord (s_dims st) (vadd c0 dir)); [|exact I].
+    destruct (move_target (s_dims st) c0 dir geom torus); [|exact I].
     apply inv_do_move. exact I.
   - (* Remove *)
     destruct (agent_cell (s_agents st) a); [|exact I].
     destruct (s_discrete st); [apply inv_cell_remove; exact I|]. apply inv_leg_remove. exact I.
+  - exact I.
+  - (* NbhdMask *) case_all; exact I.
+  - (* Aggregate *) case_all; exact I.
   - exact I.
 Qed.
 
@@ -475,11 +484,6 @@ Lemma one_value_inv st c n :
   inv st -> s_discrete st = true -> cell_read st c n = layer_read st n c.
 Proof. intros I Hd. unfold cell_read, layer_read. rewrite (inv_descr _ I Hd). reflexivity. Qed.
 
-Ltac case_all :=
-  repeat match goal with
-         | |- context [match ?x with _ => _ end] => destruct x eqn:?; simpl
-         | |- context [if ?x then _ else _] => destruct x eqn:?; simpl
-         end.
 
 Definition frame (st st' : state) : Prop :=
   s_discrete st' = s_discrete st /\ s_dims st' = s_dims st /\ s_multi st' = s_multi st /\ s_cap st' = s_cap st.
@@ -543,10 +547,13 @@ Proof.
     destruct (agent_cell (s_agents st) a) as [c0|]; [|apply frame_refl]. apply frame_do_move.
   - destruct (s_discrete st) eqn:Ed; [|apply frame_refl].
     destruct (agent_cell (s_agents st) a) as [c0|]; [|apply frame_refl].
-    destruct (Nat.eqb (length dir) (length c0) && dir_ok moore dir && valid_coord (s_dims st) (vadd c0 dir)); [|apply frame_refl].
+    destruct (move_target (s_dims st) c0 dir geom torus); [|apply frame_refl].
     apply frame_do_move.
   - destruct (agent_cell (s_agents st) a) as [c0|]; [|apply frame_refl].
     destruct (s_discrete st) eqn:Ed; simpl; [apply frame_cell_remove|unfold leg_remove; apply frame_set_agents].
+  - apply frame_refl.
+  - case_all; apply frame_refl.
+  - case_all; apply frame_refl.
   - apply frame_refl.
 Qed.
 
@@ -567,6 +574,13 @@ Qed.
 (* ---------- C18: a rejected call leaves the state as it was ---------- *)
 Lemma cell_full_nocap st c : s_cap st = 0 -> cell_full st c = false.
 Proof. intros H. unfold cell_full. rewrite H. reflexivity. Qed.
+
+Lemma move_target_valid dims c0 dir geom torus c :
+  move_target dims c0 dir geom torus = Some c -> valid_coord dims c = true.
+Proof.
+  unfold move_target. destruct (Nat.eqb (length dir) (length c0) && dir_ok geom c0 dir && valid_coord dims _) eqn:E; [|discriminate].
+  intros [= <-]. apply andb_true_iff in E. apply E.
+Qed.
 
 (* "Cell is full" executes `self.empty = False` before it raises; everything else that is
    rejected has not touched the state.  full_noop st: that one statement changes nothing in st. *)
@@ -622,11 +636,14 @@ Proof.
     destruct (agent_cell (s_agents st) a); [|intros H; inversion H]. apply do_move_err_unchanged; assumption.
   - destruct (s_discrete st) eqn:Ed; [|intros H; inversion H].
     destruct (agent_cell (s_agents st) a) as [c0|]; [|intros H; inversion H].
-    destruct (Nat.eqb (length dir) (length c0) && dir_ok moore dir && valid_coord (s_dims st) (vadd c0 dir)) eqn:Eg;
+    destruct (move_target (s_dims st) c0 dir geom torus) as [c|] eqn:Eg;
       [|intros H; inversion H; reflexivity].
-    apply andb_true_iff in Eg. destruct Eg as [_ Hv].
-    apply do_move_err_unchanged; [rewrite Ed; exact Hc|exact Hv].
+    apply move_target_valid in Eg.
+    apply do_move_err_unchanged; [rewrite Ed; exact Hc|exact Eg].
   - case_all; intros H; inversion H.
+  - intros H; inversion H.
+  - case_all; intros H; inversion H; reflexivity.
+  - case_all; intros H; inversion H; reflexivity.
   - intros H; inversion H.
 Qed.
 
